@@ -61,6 +61,7 @@ def gen_cases(tier):
     cases.append(c01.bundled_case("primordial", r))
     if tier == "thorough":
         cases.append(c01.bundled_case("deuterium", r, backends=["dense", "sparse"]))
+        cases.append(c01.bundled_case("cloud", r, backends=["dense", "sparse", "odeint"]))
     return cases
 
 
